@@ -735,7 +735,7 @@ pub fn collect<'tcx>(tcx: TyCtxt<'tcx>, formats: Vec<J>) -> J {
             DefKind::Const { .. } | DefKind::AssocConst { .. } => {
                 let ty = tcx.type_of(did).instantiate_identity().skip_norm_wip();
                 let mut o = vec![("path", J::s(path(tcx, did))), ("ty", J::s(tystr(ty)))];
-                if ty.is_integral() && tcx.generics_of(did).is_empty() {
+                if (ty.is_integral() || ty.is_bool()) && tcx.generics_of(did).is_empty() {
                     if let Ok(v) = tcx.const_eval_poly(did) {
                         if let Some(si) = v.try_to_scalar_int() {
                             let bits = si.to_bits(si.size());
